@@ -2,6 +2,9 @@ package props
 
 import (
 	"fmt"
+	"io"
+	"log"
+	"log/slog"
 	"os"
 	"strconv"
 	"testing"
@@ -11,6 +14,10 @@ import (
 )
 
 func TestMain(m *testing.M) {
+	if os.Getenv("VERIF_SHOVEL_LOG") == "" {
+		slog.SetDefault(slog.New(slog.NewTextHandler(io.Discard, nil)))
+		log.SetOutput(io.Discard)
+	}
 	code := m.Run()
 	evid.Flush()
 	os.Exit(code)
@@ -64,3 +71,25 @@ func knownFinding(t *testing.T, prop, id string, repro func() string) {
 		t.Fatalf("VERIF-VIOLATION property=%s regression=%s: %s", prop, id, got)
 	}
 }
+
+// noFail adapts *testing.T for rapid.Check inside a known-finding repro: a
+// failure is captured as text instead of failing the test.
+type noFail struct {
+	t   *testing.T
+	out *string
+}
+
+func (n noFail) Helper()                           {}
+func (n noFail) Name() string                      { return n.t.Name() }
+func (n noFail) Logf(format string, args ...any)   {}
+func (n noFail) Log(args ...any)                   {}
+func (n noFail) Skipf(format string, args ...any)  {}
+func (n noFail) Skip(args ...any)                  {}
+func (n noFail) SkipNow()                          {}
+func (n noFail) Errorf(format string, args ...any) { *n.out = fmt.Sprintf(format, args...) }
+func (n noFail) Error(args ...any)                 { *n.out = fmt.Sprint(args...) }
+func (n noFail) Fatalf(format string, args ...any) { *n.out = fmt.Sprintf(format, args...) }
+func (n noFail) Fatal(args ...any)                 { *n.out = fmt.Sprint(args...) }
+func (n noFail) FailNow()                          {}
+func (n noFail) Fail()                             {}
+func (n noFail) Failed() bool                      { return *n.out != "" }
